@@ -200,14 +200,15 @@ let () =
            let vg = List.init nd (fun _ ->
                let sigma = nf () in let width = nf () in let lower = nf () in let upper = nf () in let nx = ni () in
                let expand = nb () in
-               ({ v_kind = KScalar; v_periodic0 = false; v_period0 = 0.0; v_sigma = sigma; v_width0 = width;
+               (({ v_kind = KScalar; v_periodic0 = false; v_period0 = 0.0; v_width0 = width;
                   v_gperiodic = false; v_expand = expand; v_hard_lo = false; v_hard_up = false },
-                { b_lower = lower; b_upper = upper; b_nx = z_of_int nx })) in
+                { b_lower = lower; b_upper = upper; b_nx = z_of_int nx }), sigma)) in
+           let sigmas = List.map snd vg in let vg = List.map fst vg in
            let weight = nf () in let hw = nf () in let freq = nz () in let gfreq = nz () in
            let ug = nb () in let keep = nb () in let wt = nb () in let bt = nf () in let kb = nf () in
            let it0 = nz () in let t = ni () in let k = ni () in
            let h = List.init t (fun _ -> List.init nd (fun _ -> [nf ()])) in
-           let c = { c_vars0 = List.map fst vg; c_geom0 = List.map snd vg; c_weight = weight; c_hill_width = hw;
+           let c = { c_vars0 = List.map fst vg; c_geom0 = List.map snd vg; c_sigmas = sigmas; c_weight = weight; c_hill_width = hw;
                      c_freq = freq; c_gfreq = gfreq; c_use_grids = ug; c_keep = keep; c_wt = wt;
                      c_bias_temp = bt; c_kb = kb; c_step_zero = false; c_eb = false; c_eb_equil = z_of_int 0;
                      c_eb_target = (fun _ -> 0.0) } in
